@@ -235,10 +235,20 @@ func (w *WriteThrough) callRoots(fn *ssa.Function, x *ssa.Call, idx int, depth i
 	}
 	callees := w.calleesOf(fn, x)
 	if len(callees) == 0 {
+		// A function outside the repository (or an interface method with no repository implementation):
+		// its result may be, or hold, anything reachable from its pointer-like arguments
+		// (context.Context.Value returns what WithValue stored; sort.Reverse wraps its argument).
 		out[rootFresh] = true
 		name, _ := calleeName(&x.Call)
-		if name == "sort.Reverse" {
-			for _, a := range x.Call.Args {
+		if externalFresh[name] {
+			return out
+		}
+		args := x.Call.Args
+		if x.Call.IsInvoke() {
+			args = append([]ssa.Value{x.Call.Value}, args...)
+		}
+		for _, a := range args {
+			if isPointerLike(a.Type()) {
 				add(w.roots(fn, a, depth+1, seen))
 			}
 		}
@@ -446,3 +456,10 @@ func (w *WriteThrough) Describe(fn *ssa.Function) []string {
 
 var _ = callgraph.CalleesOf
 var _ = types.Typ
+
+// externalFresh: library functions whose result is a new object that does not retain its arguments'
+// referents in a way a later store through the result could reach (reviewed one by one).
+var externalFresh = map[string]bool{
+	"errors.New": true, "fmt.Errorf": true, "fmt.Sprintf": true, "github.com/pkg/errors.New": true,
+	"github.com/pkg/errors.Wrap": true, "github.com/pkg/errors.Wrapf": true, "github.com/pkg/errors.Errorf": true,
+}
